@@ -102,3 +102,42 @@ def worlds_per_tick(scn):
         w.apply(t.get("ops"))
         out.append(w.snapshot())
     return out
+
+
+def apply_kills(w, pids):
+    """mirror of the harness: successfully signalled pids leave cgroup.procs; cgroup.events of the touched
+    cgroups and their ancestors is recomputed from the pids still listed in the subtree"""
+    pids = set(pids)
+    dirty = set()
+    for rel, c in w.cg.items():
+        t = c["files"].get("cgroup.procs")
+        if t is None:
+            continue
+        keep, changed = [], False
+        for line in t.split("\n"):
+            if not line:
+                continue
+            try:
+                v = int(line)
+            except ValueError:
+                keep.append(line)
+                continue
+            if v in pids:
+                changed = True
+            else:
+                keep.append(line)
+        if changed:
+            c["files"]["cgroup.procs"] = "".join(k + "\n" for k in keep)
+            dirty.add(rel)
+    todo = set()
+    for rel in dirty:
+        while True:
+            todo.add(rel)
+            if rel == "":
+                break
+            rel = rel.rsplit("/", 1)[0] if "/" in rel else ""
+    for rel in todo:
+        if rel not in w.cg or "cgroup.events" not in w.cg[rel]["files"]:
+            continue
+        pop = any(any(ch.isdigit() for ch in w.cg[s]["files"].get("cgroup.procs", "")) for s in w.subtree(rel))
+        w.cg[rel]["files"]["cgroup.events"] = "populated %d\nfrozen 0\n" % int(pop)
